@@ -264,7 +264,8 @@ def configs(tier):
     out = []
     if tier == 'quick':
         plan = [((1, 2), 2, ('a', 'b'), (0, 10, 11), (0, 10), 1, 3),
-                ((1, 2), 3, ('a', 'b'), (0, 11), (0,), 1, 2)]
+                ((1, 2), 3, ('a',), (0, 11), (0,), 1, 2),
+                ((1, 2), 3, ('a', 'b'), (0, 11), (), 0, 2)]
     else:
         plan = [((1, 2), 2, ('a', 'b'), (0, 1, 10, 11, 12), (0, 1, 10, 11), 2, 3),
                 ((1, 2), 3, ('a', 'b'), (0, 10, 11), (0, 10), 1, 3),
@@ -319,7 +320,7 @@ def _selfcheck_pruning():
 def check(tier, seed, procs):
     _selfcheck_pruning()
     allc = configs(tier)
-    rows = par.pmap(_explore_config, par.rotate(allc, seed), procs)
+    rows = par.pmap(_explore_config, par.rotate(allc[::-1], seed), procs, chunksize=1)  # big configurations first
     rows.sort(key=lambda r: _size(r[0]))
     execs = sum(r[1] for r in rows)
     points = sum(r[2] for r in rows)
@@ -351,7 +352,7 @@ def check(tier, seed, procs):
         'deviation_bound': 'unbounded (every order of runnable callbacks and every load behaviour, state-hash pruned)',
         'bounds': (f'lifetime {LIFETIME}s; num_slots 1-2; '
                    + ('2 lookups (keys a,b; arrivals 0/10/11 s; <=1 cancelled, controller at 0 or 10 s; loads return after a yield | raise | '
-                      'return after 1 s), 3 lookups (keys a,b; arrivals 0/11; <=1 cancelled at 0; loads return after a yield | raise)'
+                      'return after 1 s), 3 lookups (arrivals 0/11; loads return after a yield | raise; key a only with <=1 cancelled at 0 | keys a,b, none cancelled)'
                       if tier == 'quick' else
                       '2 lookups (keys a,b; arrivals 0/1/10/11/12; <=2 cancelled at 0/1/10/11; 3 load behaviours), 3 lookups (keys a,b; '
                       'arrivals 0/10/11; <=1 cancelled at 0/10; 3 load behaviours | keys a,b,c; arrivals 0/11; none cancelled; 2 load '
